@@ -244,7 +244,7 @@ theorem filledTrailers_filled (l : List (Bytes × Bytes)) : filledTrailers (fill
 
 /-- `ext.ReadTrailer` on the trailer section the writer emits, with the names declared in `Trailer:` -/
 theorem readTrailer_block (dn : Bool) (maxBody : Nat) (e : End) (tr : List (Bytes × Bytes)) (rest : Bytes)
-    (h : ∀ kv ∈ tr, wfTrailer dn kv = true) (h0 : ∀ kv ∈ tr, kv.1.head? ≠ some 48) :
+    (h : ∀ kv ∈ tr, wfTrailer dn kv = true) :
     readTrailerReq { disableNorm := dn, maxBody := maxBody } e (tr.map (·.1)) (HW.block tr ++ rest) = .ok (some tr, rest) := by
   have hloop := parseTrailerLoop_block dn tr [] rest 0 ((HW.block tr ++ rest).length + 1) h (by
     have hwf : wfFields dn tr = true := by
@@ -261,25 +261,36 @@ theorem readTrailer_block (dn : Bool) (maxBody : Nat) (e : End) (tr : List (Byte
   have hpt : parseTrailer dn (unfilled tr) (HW.block tr ++ rest) = .ok (filled tr, (HW.block tr).length) := by
     unfold parseTrailer
     split
-    · rename_i r48 heq
-      exfalso
+    · -- the trailer section starts with the byte `0`: it is the name of the first field (a name is
+      -- never followed by CRLF), not a repeated `0\r\n` line, so the scanning loop sees the whole block
+      rename_i r48 heq
       cases tr with
       | nil => simp [HW.block, HW.strCRLF_eq] at heq
       | cons kv t =>
         have hkv := h kv (by simp)
         simp only [wfTrailer, Bool.and_eq_true] at hkv
-        obtain ⟨hne', _, _, _⟩ := wfField_parts hkv.1
-        have h48 := h0 kv (by simp)
-        have : HW.block (kv :: t) ++ rest = kv.1 ++ (58 :: 32 :: (kv.2 ++ [13, 10]) ++ (HW.block t ++ rest)) := by
+        obtain ⟨hne', hv, _, _⟩ := wfField_parts hkv.1
+        have hk := HW.validName_clean kv.1 hv
+        have e1 : HW.block (kv :: t) ++ rest = kv.1 ++ (58 :: 32 :: (kv.2 ++ [13, 10]) ++ (HW.block t ++ rest)) := by
           simp [HW.block, headerLine_wf hkv.1, List.append_assoc]
-        rw [this] at heq
-        cases hk1 : kv.1 with
-        | nil => exact hne' hk1
-        | cons c t' =>
-          rw [hk1] at heq h48
-          simp only [List.cons_append, List.cons.injEq] at heq
-          simp only [List.head?_cons, ne_eq, Option.some.injEq] at h48
-          exact h48 heq.1
+        have hlen : ¬ (HW.block (kv :: t) ++ rest).length < 3 := by
+          rw [e1]; simp only [List.length_append, List.length_cons]; omega
+        have hcr : r48.take 2 ≠ strCRLF := by
+          rw [e1] at heq
+          cases hk1 : kv.1 with
+          | nil => exact absurd hk1 hne'
+          | cons c t' =>
+            rw [hk1] at heq hk
+            simp only [List.cons_append, List.cons.injEq] at heq
+            rw [← heq.2]
+            match t', hk with
+            | [], _ => simp [HW.strCRLF_eq]
+            | [a], _ => simp [HW.strCRLF_eq]
+            | a :: b :: t'', hk =>
+              have ha : a ≠ 13 := (hk a (by simp)).1
+              simp [HW.strCRLF_eq, ha]
+        simp only [hlen, if_false, hcr]
+        simp only [filled]; exact hloop
     · simp only [filled]; exact hloop
   unfold readTrailerReq
   simp only [hne, Bool.false_eq_true, if_false]
@@ -301,11 +312,11 @@ def WRespT.prog (r : WRespT) : Prog := { r.base.prog with trailers := r.trailers
 def respWireT (r : WRespT) : Bytes := r.hdr.bytes ++ (frame r.prog false).wire
 
 /-- well-formed: the base response is, its body is streamed, every trailer field is a well-formed
-field whose name `SetTrailers` keeps (not a forbidden trailer name, no comma) and does not start
-with `0` (see `parseTrailer`: "skip any 0 length chunk") -/
+field whose name `SetTrailers` keeps (not a forbidden trailer name, no comma).  A name may start with
+`0` (`parseTrailer` skips a repeated `0\r\n` line only, since the repair of `/repo` f1dae26) -/
 def wfRespT (dn : Bool) (r : WRespT) : Bool :=
   wfResp dn r.base && (match r.base.body with | .chunked _ => true | .fixed _ => false) &&
-  r.trailers.all (fun kv => wfTrailer dn kv && kv.1.head? != some 48)
+  r.trailers.all (wfTrailer dn)
 
 def WRespT.seenHead (r : WRespT) : RespHead := { r.base.seenHead with trailer := r.trailers.map (·.1) }
 
@@ -338,13 +349,19 @@ theorem applyAll_conn (dn : Bool) (st : HState) (c : Bool) (h0 : st.head.connClo
     rw [applyHeader_kind dn _ strConnection _ (by decide), kind_conn]; rfl
 
 theorem wfTName_valid_clean {dn : Bool} {kv : Bytes × Bytes} (h : wfTrailer dn kv = true) :
-    ∀ x ∈ kv.1, x ≠ 10 ∧ x ≠ 13 ∧ x ≠ 32 := by
+    ∀ x ∈ kv.1, x ≠ 10 ∧ x ≠ 13 ∧ x ≠ 32 ∧ x ≠ 9 := by
   simp only [wfTrailer, Bool.and_eq_true] at h
   obtain ⟨_, hv, _, _⟩ := wfField_parts h.1
   obtain ⟨_, hk, _, _⟩ := wfTName_parts h.2
   intro x hx
   have := HW.validName_clean kv.1 hv x hx
-  exact ⟨this.2.1, this.1, (hk x hx).2⟩
+  have htab : x ≠ 9 := by
+    have hv' : tget Gen.validHeaderFieldNameTable x ≠ 0 := by
+      have := List.all_eq_true.mp hv x hx
+      simpa using this
+    have h2 := allBytes_spec tbl_name_notab x
+    simpa [hv'] using h2
+  exact ⟨this.2.1, this.1, (hk x hx).2, htab⟩
 
 theorem trailerNames_cleanVal (dn : Bool) (tr : List (Bytes × Bytes)) (hne : tr ≠ []) (h : ∀ kv ∈ tr, wfTrailer dn kv = true) :
     cleanVal (HW.trailerNames (tr.map (·.1))) = true := by
@@ -372,14 +389,26 @@ theorem trailerNames_cleanVal (dn : Bool) (tr : List (Bytes × Bytes)) (hne : tr
       cases hk1 : kv.1 with
       | nil => exact absurd hk1 hkne
       | cons c t' =>
-        have hc32 : c ≠ 32 := (hc c (by rw [hk1]; simp)).2.2
+        have hc32 : c ≠ 32 := (hc c (by rw [hk1]; simp)).2.2.1
+        have hc9 : c ≠ 9 := (hc c (by rw [hk1]; simp)).2.2.2
         cases t with
-        | nil => simp [HW.trailerNames, hk1, hc32]
-        | cons kv2 t2 => simp [HW.trailerNames, hk1, hc32]
-  · have := (trailerNames_last _ hne' hw).2
+        | nil => simp [HW.trailerNames, hk1, hc32, hc9, isOWS]
+        | cons kv2 t2 => simp [HW.trailerNames, hk1, hc32, hc9, isOWS]
+  · have hl32 := (trailerNames_last _ hne' hw).2
+    have hl44 := (trailerNames_last _ hne' hw).1
     cases hl : (HW.trailerNames (tr.map (·.1))).getLast? with
     | none => simp
-    | some a => rw [hl] at this; simpa using this
+    | some a =>
+      rw [hl] at hl32 hl44
+      have ha32 : a ≠ 32 := by simpa using hl32
+      have ha44 : a ≠ 44 := by simpa using hl44
+      have ha9 : a ≠ 9 := by
+        rcases trailerNames_mem _ hw a (List.mem_of_getLast? hl) with h1 | h1 | ⟨k, hk, hxk⟩
+        · exact absurd h1 ha44
+        · exact absurd h1 ha32
+        · obtain ⟨kv, hkv, rfl⟩ := List.mem_map.mp hk
+          exact (wfTName_valid_clean (h kv hkv) a hxk).2.2.2
+      simp [isOWS, ha32, ha9]
 
 theorem finish_gen (hd : RespHead) (h1 : hd.cl = -1) (h2 : hd.clBytes = []) (h3 : hd.http11 = true) : finishHead hd = hd := by
   obtain ⟨s, h11, ct, ce, sv, cl, clb, cc, h, ck, tr⟩ := hd
@@ -411,10 +440,8 @@ theorem response_roundtrip_trailers (dn : Bool) (maxBody : Nat) (e : End) (r : W
     (hw : wfRespT dn r = true) (hmax : maxBody = 0 ∨ r.base.body.content.length ≤ maxBody) :
     readResponse dn maxBody e (respWireT r ++ rest) =
       .ok { head := r.seenHead, body := r.base.body.content, trailers := r.trailers, rest := rest } := by
-  simp only [wfRespT, Bool.and_eq_true, List.all_eq_true, bne_iff_ne, ne_eq] at hw
-  obtain ⟨⟨hwb, hch⟩, htr⟩ := hw
-  have htr1 : ∀ kv ∈ r.trailers, wfTrailer dn kv = true := fun kv hkv => (htr kv hkv).1
-  have htr0 : ∀ kv ∈ r.trailers, kv.1.head? ≠ some 48 := fun kv hkv => (htr kv hkv).2
+  simp only [wfRespT, Bool.and_eq_true, List.all_eq_true] at hw
+  obtain ⟨⟨hwb, hch⟩, htr1⟩ := hw
   by_cases hnil : r.trailers = []
   · -- no trailer field: the base statement
     have e1 : respWireT r = respWire r.base := by
@@ -501,7 +528,7 @@ theorem response_roundtrip_trailers (dn : Bool) (maxBody : Nat) (e : End) (r : W
     unfold readBodyPart
     have hneg : ¬ ((-1 : Int) ≥ 0) := by omega
     simp only [mk, p.skip, Bool.false_eq_true, if_false, hneg, if_true, hrd, List.nil_append,
-      readTrailer_block dn maxBody e r.trailers rest htr1 htr0, RespRead.setContentLength, WRespT.seenHead, WResp.seenHead,
+      readTrailer_block dn maxBody e r.trailers rest htr1, RespRead.setContentLength, WRespT.seenHead, WResp.seenHead,
       WBody.content, hb]
     rw [List.filter_append, hfil]
     simp [strTransferEncoding]
@@ -509,5 +536,10 @@ theorem response_roundtrip_trailers (dn : Bool) (maxBody : Nat) (e : End) (r : W
 /-- `exChunked` with the trailer fields `X-T: ok`, `X-Sum: 9` -/
 def exTrailers : WRespT :=
   { base := exChunked, trailers := [([88, 45, 84], [111, 107]), ([88, 45, 83, 117, 109], [57])] }
+
+/-- `exChunked` with a trailer field whose name starts with `0`: `0a: b`, then `X-T: ok` (the witness of
+the repaired desynchronisation, notes/P11.md finding 2) -/
+def exTrailers0 : WRespT :=
+  { base := exChunked, trailers := [([48, 97], [98]), ([88, 45, 84], [111, 107])] }
 
 end Hertz.H1.RT
